@@ -86,7 +86,7 @@ class Shared(torch.nn.Module):
     def forward(self, X, *args):
         self.calls += 1
         if self.fail_at is not None and self.calls == self.fail_at:
-            raise RuntimeError("injected fault: forward call %d" % self.calls)
+            raise getattr(self, "fail_exc", RuntimeError)("injected fault: forward call %d" % self.calls)
         y = self.net(X.double())
         if VARIANT == "lazy_cache":
             # state the model builds lazily in its first forward pass, in whatever mode that call runs (a cached positional window / mask)
@@ -214,15 +214,31 @@ def summarise(o):
     return repr(o)
 
 
+class CustomFault(Exception):
+    pass
+
+
+# what the k-th forward call raises: an ordinary error, torch's out-of-memory error, an interrupt from the keyboard (a BaseException: the
+# usual way a long attribution run ends early in a notebook), StopIteration, a caller-defined exception class
+FWD_EXC = {"fwd": RuntimeError, "fwd_oom": torch.cuda.OutOfMemoryError, "fwd_interrupt": KeyboardInterrupt, "fwd_stopiter": StopIteration,
+           "fwd_custom": CustomFault}
+
+
 def run_event(model, events, ev):
     """ev = (name, seam, k).  Returns ('ok'|'raise', summary, counts)."""
     name, seam, k = ev
     f = Faults()
     model.calls = 0
-    model.fail_at = k if seam == "fwd" else None
+    model.fail_at = k if seam in FWD_EXC else None
+    model.fail_exc = FWD_EXC.get(seam, RuntimeError)
     f.ref_fail = k if seam == "ref" else None
     f.bwd_fail = k if seam == "bwd" else None
-    st, val = call(events[name], model, f)
+    try:
+        st, val = call(events[name], model, f)
+    except BaseException as e:  # noqa: BLE001 - KeyboardInterrupt and friends injected by the harness itself
+        if seam not in FWD_EXC or not isinstance(e, FWD_EXC[seam]):
+            raise
+        st, val = "raise", "%s: %s" % (type(e).__name__, str(e)[:120])
     model.fail_at = None
     counts = dict(fwd=model.calls, ref=f.ref_calls, bwd=f.bwd_calls)
     model.calls = 0
@@ -310,6 +326,11 @@ def alphabet(events, seed, reduced=False):
                 ks = sorted(set([1, (K + 1) // 2, K]))
             for k in ks:
                 out.append((name, seam, k))
+            if seam == "fwd" and K >= 1:
+                # other exception types at the first and the last forward call
+                for seam2 in ("fwd_oom", "fwd_interrupt", "fwd_stopiter", "fwd_custom"):
+                    for k in sorted(set([1, K])):
+                        out.append((name, seam2, k))
     return out
 
 
